@@ -9,6 +9,7 @@ package doccomposer
 import (
 	"encoding/json"
 	"fmt"
+	"strings"
 
 	jsonpatch "github.com/evanphx/json-patch"
 
@@ -93,17 +94,50 @@ func applyJSON(doc document.Document, entry interface{}) (document.Document, err
 		return nil, err
 	}
 
+	err = validateJSONPatchPointers(jsonPatches)
+	if err != nil {
+		return nil, err
+	}
+
 	docBytes, err := doc.Bytes()
 	if err != nil {
 		return nil, err
 	}
 
-	docBytes, err = jsonPatches.Apply(docBytes)
-	if err != nil {
-		return nil, err
+	// apply the operations one at a time: the JSON patch library shares a copied node between source and
+	// destination, so later operations of the same patch would act on both (and could link a node into itself)
+	for _, op := range jsonPatches {
+		docBytes, err = jsonpatch.Patch{op}.Apply(docBytes)
+		if err != nil {
+			return nil, err
+		}
 	}
 
 	return document.FromBytes(docBytes)
+}
+
+// validateJSONPatchPointers refuses operations that move or copy a location into one of its own children:
+// the JSON patch library links the source node into itself and then recurses without end.
+func validateJSONPatchPointers(jsonPatches jsonpatch.Patch) error {
+	for _, op := range jsonPatches {
+		var from, path string
+
+		fromMsg, ok := op["from"]
+		if !ok || fromMsg == nil || json.Unmarshal(*fromMsg, &from) != nil {
+			continue
+		}
+
+		pathMsg, ok := op["path"]
+		if !ok || pathMsg == nil || json.Unmarshal(*pathMsg, &path) != nil {
+			continue
+		}
+
+		if strings.HasPrefix(path, from+"/") {
+			return fmt.Errorf("json patch: cannot move or copy '%s' into its own child '%s'", from, path)
+		}
+	}
+
+	return nil
 }
 
 func applyRecover(replaceDoc interface{}) (document.Document, error) {
